@@ -106,6 +106,11 @@ func (Segment).Remove
     flags noframe only_sync
     assigns fsExists, dirDirty
 
+// ASSUMED frame: Check only reads (opens, scans and closes the segment's files)
+func (Segment).Check
+    flags assumed
+    assigns fPath
+
 func (Segment).Recover
     flags noframe only_sync only_crash
     // C05 crash invariant tempFresh: the temp file about to be written does not exist (a stale one
